@@ -579,6 +579,13 @@ Section IterOrder.
   Theorem rev_items_rev_fwd m : ssorted m -> cut m = m -> rvs (rev m) None = rev (fwd m None).
   Proof. intros Hs Hc. rewrite rev_items_spec, fwd_items_spec by assumption. unfold spec_scan. now rewrite Hc. Qed.
 
+  (* AllVersions in reverse: all non-skipped entries, the stream backwards (per key oldest first) *)
+  Theorem rev_items_all m :
+    io_all o = true -> ssorted m -> rvs (rev m) None = rev (filter (fun e => negb (skip e)) m).
+  Proof.
+    intros Ha Hs. rewrite rev_items_spec by assumption. f_equal. apply filter_ext. intros e. now apply emit_all.
+  Qed.
+
   Lemma cut_id_reverse m : io_reverse o = true -> cut m = m.
   Proof. intros Hr. apply take_while_id. intros x _. unfold stream_has_prefix. now rewrite Hr. Qed.
   Lemma cut_id_noprefix m : io_prefix o = [] -> cut m = m.
